@@ -2762,7 +2762,7 @@ pub(crate) fn store_meta_block_fast<Cb, Alloc: BrotliAlloc>(
     let distance_alphabet_bits = Log2FloorNonZero(u64::from(num_distance_symbols) - 1) + 1;
     StoreCompressedMetaBlockHeader(is_last, length, storage_ix, storage);
     BrotliWriteBits(13, 0, storage_ix, storage);
-    if n_commands <= 128usize {
+    if n_commands <= 128usize && num_distance_symbols as usize <= kStaticDistanceCodeDepth.len() {
         let mut histogram: [u32; 256] = [0; 256];
         let mut pos: usize = start_pos;
         let mut num_literals: usize = 0usize;
